@@ -598,8 +598,11 @@ class Atoms(list):
         return super().__add__(other)
 
     def __radd__(self, other):
-        """Add another set of Atoms to this one. Can add None"""
-        return self.__add__(other)
+        """Add this set of Atoms to another (other + self). Can add None"""
+        if other is None:
+            return self
+
+        return list(other) + list(self)
 
     def copy(self) -> "Atoms":
         """
